@@ -22,7 +22,7 @@ func (u Unsafe) NewEntity(ids ...ID) Entity {
 // NewEntityRel creates a new entity with the given components and relation targets.
 func (u Unsafe) NewEntityRel(ids []ID, relations ...Relation) Entity {
 	u.cachedRelations = relationSlice(relations).ToRelationIDsForUnsafe(u.world, u.cachedRelations[:0])
-	checkRelationsAdded(ids, u.cachedRelations)
+	checkRelationsAdded(ids, u.cachedRelations, false)
 	entity, mask := u.world.newEntity(ids, u.cachedRelations)
 	u.world.storage.observers.FireCreateEntityIfHas(entity, mask)
 	if len(relations) > 0 {
@@ -99,7 +99,7 @@ func (u Unsafe) AddRel(entity Entity, comps []ID, relations ...Relation) {
 		panic("can't add components to a dead entity")
 	}
 	u.cachedRelations = relationSlice(relations).ToRelationIDsForUnsafe(u.world, u.cachedRelations[:0])
-	checkRelationsAdded(comps, u.cachedRelations)
+	checkRelationsAdded(comps, u.cachedRelations, false)
 	oldMask, newMask := u.world.add(entity, comps, u.cachedRelations)
 	u.world.storage.observers.FireAddIfHas(OnAddComponents, entity, oldMask, newMask)
 	if len(relations) > 0 {
@@ -121,7 +121,7 @@ func (u Unsafe) Exchange(entity Entity, add []ID, remove []ID, relations ...Rela
 		panic("can't exchange components on a dead entity")
 	}
 	u.cachedRelations = relationSlice(relations).ToRelationIDsForUnsafe(u.world, u.cachedRelations[:0])
-	checkRelationsAdded(add, u.cachedRelations)
+	checkRelationsAdded(add, u.cachedRelations, len(remove) > 0)
 	oldMask, newMask := u.world.exchange(entity, add, remove, u.cachedRelations)
 
 	if len(add) > 0 {
